@@ -369,6 +369,65 @@ def rule_R1(body):
     return body, n
 
 
+def rule_R3(body):
+    """for (I, V) in E.iter_mut().enumerate() { S }  =>  for I in 0..E.len() { S[*V := E[I], V := E[I]] }   (V is the only access path to E's
+    element inside S; refused if S mentions E itself)"""
+    pat = re.compile(r"for \((\w+), (\w+)\) in (\w+)\.iter_mut\(\)\.enumerate\(\) \{")
+    n = 0
+    while True:
+        m = pat.search(body)
+        if not m:
+            break
+        i, v, e = m.groups()
+        ob = m.end() - 1
+        cb = match_brace(body, ob)
+        inner = body[ob + 1:cb]
+        if re.search(r"\b%s\b" % re.escape(e), inner):
+            raise RsxError("R3 refused: loop body mentions `%s`" % e)
+        inner2 = re.sub(r"\*\s*%s\b" % re.escape(v), "%s[%s]" % (e, i), inner)
+        inner2 = re.sub(r"\b%s\b" % re.escape(v), "%s[%s]" % (e, i), inner2)
+        body = body[:m.start()] + ("for %s in 0..%s.len() {" % (i, e)) + inner2 + body[cb:]
+        n += 1
+    return body, n
+
+
+def rule_R10(body):
+    """for V in A..B { S }  with a `continue` directly in S  =>
+       { let mut verif_it_V = A; let verif_end_V = B; while verif_it_V < verif_end_V { let V = verif_it_V; verif_it_V += 1; S } }
+       (Verus has no `continue` in for-loops; the increment is done before S, so `continue` keeps its meaning; A, B are evaluated once, as in `for`)"""
+    pat = re.compile(r"for (\w+) in ([\w\.\(\)]+?)\.\.([\w\.\(\)]+?) \{")
+    n = 0
+    pos = 0
+    while True:
+        m = pat.search(body, pos)
+        if not m:
+            break
+        v, a, b = m.groups()
+        ob = m.end() - 1
+        cb = match_brace(body, ob)
+        inner = body[ob + 1:cb]
+        # `continue` that belongs to THIS loop: not inside a nested loop
+        depth_free = re.sub(r"\b(for|while|loop)\b[^{]*\{", "\x00{", inner)
+        own = False
+        k = 0
+        while k < len(depth_free):
+            if depth_free[k] == "\x00":
+                k = match_brace(depth_free, k + 1) + 1
+                continue
+            if depth_free.startswith("continue", k) and not (depth_free[k - 1].isalnum() or depth_free[k - 1] == "_"):
+                own = True
+                break
+            k += 1
+        if not own:
+            pos = m.end()
+            continue
+        new = "{ let mut verif_it_%s = %s; let verif_end_%s = %s; while verif_it_%s < verif_end_%s { let %s = verif_it_%s; verif_it_%s += 1;" % (v, a, v, b, v, v, v, v, v)
+        body = body[:m.start()] + new + inner + "} }" + body[cb + 1:]
+        n += 1
+        pos = m.start() + len(new)
+    return body, n
+
+
 def rule_R8(body):
     """for (I, (A, B)) in X.iter().zip(Y.iter()).enumerate() { S } => for I in 0..min(X.len(), Y.len()) { let A = &X[I]; let B = &Y[I]; S }"""
     pat = re.compile(r"for \((\w+), \((\w+), (\w+)\)\) in (\w+)\.iter\(\)\.zip\((\w+)\.iter\(\)\)\.enumerate\(\) \{")
@@ -459,7 +518,7 @@ def rule_R12(body):
     return body, n
 
 
-RULES = {"R12": rule_R12, "R9": rule_R9, "R11": rule_R11, "R1": rule_R1, "R2": rule_R2, "R4": rule_R4, "R7": rule_R7, "R8": rule_R8}
+RULES = {"R10": rule_R10, "R3": rule_R3, "R12": rule_R12, "R9": rule_R9, "R11": rule_R11, "R1": rule_R1, "R2": rule_R2, "R4": rule_R4, "R7": rule_R7, "R8": rule_R8}
 
 
 def match_brace(text, ob):
